@@ -50,7 +50,8 @@ def program_sets(tier):
     """General menu at the common size bound + control-flow menu one size larger."""
     return [("gen", dict(tails=(True, False) if tier == "thorough" else (True,), key=("gen2", tier))),
             ("ctl", dict(size=C.SIZE[tier] + 1, only=frozenset(CONTROL if tier == "thorough" else CONTROL_QUICK),
-                         key=("ctl", tier), tails=(True, False)))]
+                         key=("ctl", tier), tails=(True, False))),
+            C.odd_set(tier)]
 
 
 def units(tier):
